@@ -13,9 +13,13 @@ void harness(void) {
 	VF_ASSUME(n <= N);
 	VF_NONDET(size_t, k);		/* ghost index */
 	http_req_line_data_t rd;
-#ifdef VF_REQ_PREFIX	/* focus variant: the line starts with a fixed method and SP */
+#if defined(VF_REQ_GET) || defined(VF_REQ_CONNECT)	/* focus variants: fixed method and SP */
 	{
-		static const char pfx[] = VF_REQ_PREFIX;
+#ifdef VF_REQ_GET
+		static const char pfx[] = "GET ";
+#else
+		static const char pfx[] = "CONNECT ";
+#endif
 		for (size_t i = 0; i < sizeof(pfx) - 1; i ++)
 			VF_ASSUME(in.b[i] == (uint8_t)pfx[i]);
 	}
